@@ -73,6 +73,36 @@ def excluded(case):
     return False
 
 
+# ---- the command-line entry point for the safe-mode properties (C03, C06, C13): rimupy --safe-mode N with trusted inputs
+# (prepend file, prepend text, ~/.rimurc, macro shortcut options) in front of an untrusted source holding unbalanced raw HTML
+CLI_PIDS = ('C03', 'C06', 'C13')
+CLI_DOCS = ['text <u>lone and *em*\n\n<section>\nblock', 'a <s>b</s> & <q>c\n\n- item <u>x']
+CLI_UNTRUSTED_TAGS = ['<u>', '<section>', '<s>', '<q>']
+
+
+def cli_entry_cases():
+    out = []
+    for di, doc in enumerate(CLI_DOCS):
+        for sm in ['1', '2', '3', '5', '6', '7', '9', '15']:
+            for pre in range(8):
+                for extra in ([], ['--title', 'T'], ['--header-ids']):
+                    argv = ['--safe-mode', sm]
+                    files = []
+                    if pre & 1:
+                        argv += ['--prepend-file', 'pf.rmu']
+                        files.append(['pf.rmu', "{pf}='PF'\n<div>pf</div>"])
+                    if pre & 2:
+                        argv += ['--prepend', "{pt}='PT'\n<i>pt</i>"]
+                    rc = "{rc}='RC'\n<div>rc</div>" if pre & 4 else None
+                    argv += extra
+                    if di == 0:
+                        files.append(['in.rmu', doc])
+                        out.append({'kind': 'M', 'argv': argv + ['in.rmu'], 'stdin': '', 'files': files, 'rimurc': rc})
+                    else:
+                        out.append({'kind': 'M', 'argv': argv, 'stdin': doc, 'files': files, 'rimurc': rc})
+    return out
+
+
 class Spec:
     rule = ''
     assumptions = []
@@ -140,7 +170,25 @@ class Spec:
             if cases and len(out['samples']) < 3:
                 out['samples'].append({'stream': name, 'case': strip_case(cases[len(cases) // 2])})
         self.engine_streams(ctx, out)
+        if ctx.pid in CLI_PIDS:
+            cases = cli_entry_cases()
+            mo = model_run([common.cli_line(c) for c in cases], timeout=120)
+            io_ = impl_run(cases, timeout=self.timeout)
+            nd = 0
+            for c, m, i in zip(cases, mo, io_):
+                r = common.compare_cli(common.parse_cli_output(m), i)
+                if r == 'SKIP':
+                    out['skipped'] += 1
+                elif r:
+                    nd += 1
+                    out['disagreements'].append({'stream': 'M', 'why': 'rimupy: ' + r, 'case': c})
+            out['streams']['M'] = {'cases': len(cases), 'disagreements': nd}
+            out['cases'] += len(cases)
         return out
+
+    def cli_oracle(self, ctx, case, res):
+        """None, or (class, why): the property on one run of the command (C03, C06 override)"""
+        return None
 
     def engine_streams(self, ctx, out):
         """The layers under every property, re-validated on every run: the regex engine of the model together with the
@@ -175,6 +223,19 @@ class Spec:
 
     def run_oracle(self, ctx, cases):
         """cases may carry 'variants': further histories run alongside, whose results the oracle compares"""
+        mcases = [c for c in cases if c.get('kind') == 'M']
+        cases = [c for c in cases if c.get('kind') != 'M']
+        mfails = []
+        if mcases:
+            for c, r in zip(mcases, impl_run(mcases, timeout=self.timeout)):
+                try:
+                    o = self.cli_oracle(ctx, c, r or {})
+                except Exception as e:  # noqa
+                    o = None
+                    self._oracle_errors = getattr(self, '_oracle_errors', 0) + 1
+                    self._oracle_last_error = repr(e)
+                if o:
+                    mfails.append({'class': o[0], 'why': o[1], 'case': c})
         cases = [c for c in cases if not excluded(c) and not any(excluded(v) for v in c.get('variants', []))]
         flat = []
         for c in cases:
@@ -211,10 +272,12 @@ class Spec:
                 if c.get('meta'):
                     kc['meta'] = c['meta']
                 fails.append({'class': o[0], 'why': o[1], 'case': kc})
-        return fails, nt, len(flat)
+        return fails + mfails, nt, len(flat) + len(mcases)
 
     def search(self, ctx, extra_cases, boost):
         cases = list(extra_cases) + list(self.search_cases(ctx, boost)) + (gen.abort_histories() if ctx.pid in ABORT_PIDS else [])
+        if ctx.pid in CLI_PIDS:
+            cases += cli_entry_cases()
         fails, nt, n = self.run_oracle(ctx, cases)
         out = {'cases': n, 'failures': fails, 'distinct_nontrivial': nt, 'samples': [], 'distribution': {}}
         if cases:
@@ -314,7 +377,13 @@ class Spec:
         fails, _, _ = self.run_oracle(ctx, [case])
         if fails:
             return fails[0]['why']
-        if ctx.model_ok:
+        if ctx.model_ok and case.get('kind') == 'M':
+            mo = model_run([common.cli_line(case)], timeout=120)
+            io_ = impl_run([case], timeout=self.timeout)
+            r = common.compare_cli(common.parse_cli_output(mo[0]), io_[0])
+            if r and r != 'SKIP':
+                return 'model and implementation differ: rimupy: ' + r
+        elif ctx.model_ok:
             mo = model_run([history_line(case)])
             io_ = impl_run([case], timeout=self.timeout)
             r = self.compare(parse_history_output(mo[0]), io_[0])
@@ -654,6 +723,18 @@ class C03(Spec):
     def search_cases(self, ctx, boost):
         return self._cases(ctx, sizes(ctx, 1500, 60000) * (3 if boost else 1), 'S') + gen.injection_cases(POLICY_MODES, SENT)
 
+    def cli_oracle(self, ctx, case, res):
+        # rimupy --safe-mode N (N with an HTML policy): no tag of the untrusted source reaches the output raw, whatever trusted
+        # inputs were rendered before it
+        sm = int(case['argv'][case['argv'].index('--safe-mode') + 1])
+        out = res.get('stdout')
+        if not isinstance(out, str) or sm & 3 == 0:
+            return None
+        for t in CLI_UNTRUSTED_TAGS:
+            if t in out:
+                return ('C03/cli-raw-html', 'rimupy %s: the untrusted source\'s %s is in the output: %r' % (' '.join(case['argv'][:6]), t, out[:200]))
+        return None
+
     def oracle(self, ctx, case, impl, variants=()):
         if not all_ok(impl):
             return None
@@ -699,6 +780,18 @@ class C06(Spec):
     def search_cases(self, ctx, boost):
         cur = [H([call(src, safeMode=0, reset=True, cb=True)]) for src in self.CURATED]
         return cur + gen.injection_cases(POLICY_MODES, SENT) + self._cases(ctx, sizes(ctx, 1500, 60000) * (3 if boost else 1), 'S')
+
+    def cli_oracle(self, ctx, case, res):
+        # rimupy --safe-mode N (N with an HTML policy): the trusted inputs are balanced and the untrusted source's raw HTML is
+        # dropped, replaced or escaped, so the output is balanced
+        sm = int(case['argv'][case['argv'].index('--safe-mode') + 1])
+        out = res.get('stdout')
+        if not isinstance(out, str) or sm & 3 == 0:
+            return None
+        e = O.balanced(out, None, lenient=True)
+        if e:
+            return ('C06/cli-' + e[0].split(':')[0], 'rimupy %s: %s: %s in %r' % (' '.join(case['argv'][:6]), e[0], e[1], out[:200]))
+        return None
 
     def oracle(self, ctx, case, impl, variants=()):
         if not all_ok(impl):
@@ -906,6 +999,18 @@ class C13(Spec):
                 c['meta'] = {'expect3': ['<p>%s%s</p>' % (pre, post), '<p>%s%s%s</p>' % (pre, SENT, post), '<p>%s&lt;%s&gt;%s</p>' % (pre, name, post)]}
                 cur.append(c)
         return cur + [self._case(rng) for _ in range(sizes(ctx, 1000, 30000) * (3 if boost else 1))]
+
+    def cli_oracle(self, ctx, case, res):
+        # rimupy --safe-mode N: the policy selected by the low two bits is applied to the untrusted source's HTML
+        sm = int(case['argv'][case['argv'].index('--safe-mode') + 1])
+        out = res.get('stdout')
+        if not isinstance(out, str) or sm & 3 == 0:
+            return None
+        for t in CLI_UNTRUSTED_TAGS:
+            if t in out:
+                return ('C13/cli-policy-not-applied', 'rimupy %s: policy %d should have removed, replaced or escaped %s: %r'
+                        % (' '.join(case['argv'][:6]), sm & 3, t, out[:200]))
+        return None
 
     def oracle(self, ctx, case, impl, variants=()):
         if len(variants) < 2 or not all_ok(impl) or not all_ok(variants[0]) or not all_ok(variants[1]):
